@@ -1386,6 +1386,7 @@ class ValueCounts(ReductionConstantDim):
     reduction_chunk = M.value_counts
     reduction_aggregate = methods.value_counts_aggregate
     reduction_combine = methods.value_counts_combine
+    split_by = None
 
     @functools.cached_property
     def _meta(self):
@@ -1400,8 +1401,10 @@ class ValueCounts(ReductionConstantDim):
             return func(_concat(inputs), **kwargs)
 
     @property
-    def split_by(self):
-        return self.frame._meta.name
+    def shuffle_by_index(self):
+        # The chunks are keyed by their index (the counted values), whatever
+        # its name is; the only column holds the counts
+        return True
 
     @property
     def chunk_kwargs(self):
@@ -1424,10 +1427,6 @@ class ValueCounts(ReductionConstantDim):
     def _simplify_up(self, parent, dependents):
         # We are already a Series
         return
-
-    @functools.cached_property
-    def split_by(self):
-        return self.frame._meta.name
 
     def _divisions(self):
         if self.sort:
